@@ -139,7 +139,8 @@ MatX == <<<<X(1), X(3)>>, <<X(2), X(4)>>>>              \* the 2x2 matrix state 
 MatPX == <<<<Times(P(1), X(1)), Times(P(3), X(3))>>, <<Times(P(2), X(2)), Times(P(4), X(4))>>>>
 ReadsC07(s) ==
   LET grids == IF s.meth = "DC" THEN <<"control", "control-", "integrator", "roots">> ELSE <<"control", "control-", "integrator">>
-      mats == IF s.rhs = "R8" THEN <<<<<<E1>>>>, Col2, Row2, Mat22, MatX, MatPX>> ELSE <<<<<<E1>>>>, <<<<E2>>>>, <<<<E3>>>>, <<<<E4>>>>, Col2, Row2, Mat22>>
+      matsZ == <<<<<<Z(1)>>>>, <<<<Plus(Times(Z(1), X(1)), Tm)>>>>, <<<<Z(1), X(1)>>>>>>      \* algebraic variable (R6)
+      mats == IF s.rhs = "R6" THEN matsZ ELSE IF s.rhs = "R8" THEN <<<<<<E1>>>>, Col2, Row2, Mat22, MatX, MatPX>> ELSE <<<<<<E1>>>>, <<<<E2>>>>, <<<<E3>>>>, <<<<E4>>>>, Col2, Row2, Mat22>>
   IN Flat(Tup([gi \in 1..Len(grids) |-> Tup([mi \in 1..Len(mats) |-> MRead("C07.a", "msample", mats[mi], grids[gi])])]))
      \o <<MRead("C07.b", "mvalue", <<<<Plus(Times(TT, CI(3)), T0)>>>>, ""), MRead("C07.b", "mvalue", <<<<TT, T0>>, <<TF, CI(1)>>>>, "")>>
 
@@ -151,8 +152,9 @@ MkDeclS(s) ==
                        !.reads = ReadsC07(s)]
   IN WithHorizon(d1, s.hz, IF s.seed % 2 = 0 THEN One ELSE Q(-1, 2), TBase(s.grid, N))
 
-SpaceS == [rhs : {"R3v", "R8"}, meth : {"MS", "SS", "DC"}, N : 1..(IF Thorough THEN 3 ELSE 2), M : 1..2, grid : {"uni", "geo"},
-           hz : {"num", "fb"}, seed : IF Thorough THEN {Seed, Seed + 1} ELSE {Seed}, cons : {<<>>}, obj : {<<>>}]
+SpaceS == {s \in [rhs : {"R3v", "R8", "R6"}, meth : {"MS", "SS", "DC"}, N : 1..(IF Thorough THEN 3 ELSE 2), M : 1..2, grid : {"uni", "geo"},
+                  hz : {"num", "fb"}, seed : IF Thorough THEN {Seed, Seed + 1} ELSE {Seed}, cons : {<<>>}, obj : {<<>>}] :
+              (s.rhs = "R6" => s.meth = "DC")}
 
 (***************************************************************************)
 (* C10 family: guesses.  C14: scales.  C11: free horizons.  C09: parameter *)
@@ -199,6 +201,7 @@ WithScales(d, sid) ==
                     !.cons = Tup([i \in 1..Len(d.cons) |-> Scaled(d.cons[i], Mul(f, R(i + 2)))])]
 
 \* parameter-dependent constraint / objective / read-back for the C09 family
+KN == Con("kN", "le", X(1), Plus(CI(9), Off(P(2), 1)), "control", TRUE, TRUE)      \* next() of a per-interval-plus parameter (RA only)
 KP == Con("kP", "le", X(1), Plus(CI(5), P(1)), "control", TRUE, TRUE)
 KQ == Box("kQ", NegE(P(1)), U(1), Plus(P(1), CI(9)), "control", TRUE, FALSE)
 OP == AtTf(Times(X(1), P(1)))
@@ -209,7 +212,7 @@ MkDeclX(s) ==
       dcs == SchemeOf(IF s.meth = "DC" THEN s.intg ELSE "radau2")
       d1 == [d0 EXCEPT !.method = IF s.meth = "DC" THEN MethodDC(N, s.M, dcs[1], dcs[2], IF s.grid = "free" THEN FreeG ELSE WithLocal(GridOf(s.grid, N), FALSE, s.lT))
                                   ELSE Method(s.meth, N, s.M, s.intg, IF s.grid = "free" THEN FreeG ELSE WithLocal(GridOf(s.grid, N), FALSE, s.lT)),
-                       !.cons = Tup([i \in 1..Len(s.cons) |-> IF s.cons[i] = "kP" THEN KP ELSE IF s.cons[i] = "kQ" THEN KQ ELSE ConOf(s.cons[i])]),
+                       !.cons = Tup([i \in 1..Len(s.cons) |-> IF s.cons[i] = "kP" THEN KP ELSE IF s.cons[i] = "kQ" THEN KQ ELSE IF s.cons[i] = "kN" THEN KN ELSE ConOf(s.cons[i])]),
                        !.obj = Tup([i \in 1..Len(s.obj) |-> IF s.obj[i] = "oP" THEN OP ELSE ObjOf(s.obj[i])]),
                        !.quads = IF \E i \in 1..Len(s.obj) : s.obj[i] = "o6" THEN <<Q1>> ELSE <<>>,
                        !.reads = <<Read("C07.b", "value", TT, ""), Read("C07.b", "value", T0, ""), Read("C07.b", "value", TF, "")>>
@@ -232,8 +235,9 @@ SpaceX ==
   CASE Family = "C10" ->
          {s \in [rhs : {"R2", "R3", "R6"}, meth : {"MS", "SS", "DC"}, intg : {"rk", "radau2"}, N : 2..3, M : 1..2, grid : {"uni", "geo"},
                  hz : {"num", "fb"}, seed : {Seed}, cons : {<<>>}, obj : {<<>>}, lT : {FALSE}, gs : GuessIds, scl : {"s0"},
-                 when : {"before", "after"}] :
-              /\ (s.meth = "DC" <=> s.intg = "radau2") /\ (s.rhs = "R6" => s.meth = "DC")}
+                 when : {"before", "after", "split"}] :     \* split: the last guess is given after a transcription, the others before
+              /\ (s.meth = "DC" <=> s.intg = "radau2") /\ (s.rhs = "R6" => s.meth = "DC")
+              /\ (s.when = "split" => s.gs \in {"twice", "mix", "Tfirst", "z"})}
     [] Family = "C14" ->
          {s \in [rhs : {"R2", "R3", "R6"}, meth : {"MS", "SS", "DC"}, intg : {"rk", "radau2"}, N : 1..2, M : 1..2, grid : {"uni", "geo"},
                  hz : {"num", "fb"}, seed : {Seed}, cons : {<<"k1", "k3", "k4">>, <<"k7", "k5">>}, obj : {<<"o1", "o3">>, <<"o6">>}, lT : {FALSE},
@@ -246,10 +250,11 @@ SpaceX ==
               /\ (s.meth = "DC" <=> s.intg \in {"radau2", "legendre1"})
               /\ (s.lT => s.grid \in {"uni", "geo"})}
     [] Family = "C09" ->
-         {s \in [rhs : {"R2", "R3", "R4", "R8"}, meth : {"MS", "SS", "DC"}, intg : {"rk", "radau2"}, N : 1..3, M : 1..2, grid : {"uni", "fun"},
-                 hz : {"num", "pT", "fT"}, seed : {Seed, Seed + 1}, cons : {<<"kP", "kQ">>}, obj : {<<"oP", "o3">>, <<"o6", "oP">>}, lT : {FALSE},
+         {s \in [rhs : {"R2", "R3", "R4", "R8", "RA"}, meth : {"MS", "SS", "DC"}, intg : {"rk", "radau2"}, N : 1..3, M : 1..2, grid : {"uni", "fun"},
+                 hz : {"num", "pT", "fT"}, seed : {Seed, Seed + 1}, cons : {<<"kP", "kQ">>, <<"kP", "kN">>}, obj : {<<"oP", "o3">>, <<"o6", "oP">>}, lT : {FALSE},
                  gs : {"none"}, scl : {"s0"}, when : {"before"}] :
-              (s.meth = "DC" <=> s.intg = "radau2")}
+              /\ (s.meth = "DC" <=> s.intg = "radau2")
+              /\ (s.cons = <<"kP", "kN">> <=> s.rhs = "RA")}
 
 (***************************************************************************)
 (* C08 family: refined sampling and samplers at dynamically feasible       *)
@@ -275,11 +280,12 @@ MkDeclR(s) ==
       d1 == [d0 EXCEPT !.method = IF s.meth = "DC" THEN MethodDC(N, s.M, dcs[1], dcs[2], GridOf(s.grid, N))
                                   ELSE Method(s.meth, N, s.M, s.intg, GridOf(s.grid, N)),
                        !.obj = <<O1, O3>>,    \* makes every decision variable an active NLP variable (sampler works on the gist)
-                       !.reads = <<RRead("C08.c", X(1), s.refine), RRead("C08.c", ex, s.refine), RRead("C08.c", Tm, s.refine),
+                       !.reads = (IF Len(d0.params) > 0 THEN <<RRead("C08.c", Plus(Times(P(1), X(1)), U(1)), s.refine)>> ELSE <<>>) \o
+                                 <<RRead("C08.c", X(1), s.refine), RRead("C08.c", ex, s.refine), RRead("C08.c", Tm, s.refine),
                                    Read("C08.a", "sample", X(1), "integrator"), Read("C08.a", "sample", X(1), "control"),
                                    SRead("C08.i", X(1), QueryTimes(N, s.M)), SRead("C08.i", Plus(Sq(X(1)), Times(U(1), Tm)), QueryTimes(N, s.M))>>]
   IN WithHorizon(d1, s.hz, IF s.seed % 2 = 0 THEN One ELSE Q(-1, 2), TBase(s.grid, N))
-SpaceR == {s \in [rhs : {"R1", "R2", "R3", "R5"}, meth : {"MS", "SS", "DC"}, intg : {"rk", "expl_euler", "radau1", "radau2", "legendre1"},
+SpaceR == {s \in [rhs : {"R1", "R2", "R3", "R4", "R5", "RA"}, meth : {"MS", "SS", "DC"}, intg : {"rk", "expl_euler", "radau1", "radau2", "legendre1"},
                   N : 1..(IF Thorough THEN 3 ELSE 2), M : 1..2, grid : {"uni", "geo", "fun"}, hz : {"num", "fT"}, refine : 1..(IF Thorough THEN 7 ELSE 4),
                   seed : {Seed}, cons : {<<>>}, obj : {<<>>}] :
               /\ (s.meth = "DC" <=> s.intg \in {"radau1", "radau2", "legendre1"})
@@ -290,13 +296,15 @@ SpaceR == {s \in [rhs : {"R1", "R2", "R3", "R5"}, meth : {"MS", "SS", "DC"}, int
 (* C15 family: grid='inf' constraints.                                     *)
 (***************************************************************************)
 InfCon(cid, lhs, rhs) == Con(cid, "le", lhs, rhs, "inf", TRUE, TRUE)
-InfIds == {"i1", "i2", "i3", "i4", "i5", "i6"}
+InfIds == {"i1", "i2", "i3", "i4", "i5", "i6", "i7", "i8"}
 InfOf(id, nx) ==
   CASE id = "i1" -> InfCon("i1", X(1), CI(3))
     [] id = "i2" -> InfCon("i2", Sq(X(1)), CI(9))
     [] id = "i3" -> InfCon("i3", Plus(X(1), Times(CI(2), X(nx))), C(7, 2))
     [] id = "i4" -> InfCon("i4", Times(X(1), X(nx)), Plus(CI(5), Sq(X(1))))
     [] id = "i5" -> InfCon("i5", Plus(X(1), DX(1)), CI(11))
+    [] id = "i7" -> Con("i7", "ge", Plus(X(1), Sq(X(1))), CI(-2), "inf", TRUE, TRUE)          \* lower-degree term first: needs degree elevation
+    [] id = "i8" -> Con("i8", "ge", Minus(X(nx), Times(X(1), X(nx))), CI(-9), "inf", TRUE, TRUE)
     [] id = "i6" -> Con("i6", "ge", Minus(X(1), Times(C(1, 2), DX(nx))), CI(-6), "inf", TRUE, TRUE)
 MkDeclInf(s) ==
   LET N == s.N
